@@ -1,10 +1,59 @@
 import PewDriver.Util
+import PewModel.Filters
 open Lean
 namespace PewDriver.C13
-open PewDriver
+open PewDriver Pew.Filters
 
-def handle (op : String) (_req : Json) : R Json := do
+def chunk (n : Nat) (l : List Rat) : Nat → List (List Rat)
+  | 0 => []
+  | k + 1 => l.take n :: chunk n (l.drop n) k
+
+/-- lhs/rhs of the decision in the form the harness needs for the margin: mean filter `d²` against
+`t²·s`, median filter `d` against `t·s`; `rhs = null` for an infinite threshold -/
+def jCell (sq : Bool) (t : Option Rat) (c : Cell) : Json :=
+  let lhs := if sq then c.d * c.d else c.d
+  let rhs := t.map (fun t => if sq then t * t * c.s else t * c.s)
+  let o := if sq then c.outlierSq t else c.outlierLin t
+  jObj [("x", jRat c.x), ("lhs", jRat lhs), ("rhs", jOpt jRat rhs), ("repl", jRat c.repl),
+        ("outlier", jBool o), ("out", jRat (if sq then c.outSq t else c.outLin t))]
+
+def jSpec (sq : Bool) (t : Option Rat) : SpecPx → Json
+  | .exact c => (jCell sq t c).setObjVal! "kind" (jStr "exact")
+  | .range x lo hi => jObj [("kind", jStr "range"), ("x", jRat x), ("lo", jRat lo), ("hi", jRat hi)]
+
+def handle (op : String) (req : Json) : R Json := do
   match op with
+  | "c13.filter" =>
+    let kind ← getStr req "kind"
+    let shape ← getList asNat req "shape"
+    let data ← getList asRat req "data"
+    let block ← getList asNat req "block"
+    let t ← fld req "threshold" >>= asOpt asRat
+    if data.length ≠ shape.foldl (· * ·) 1 then throw "data/shape mismatch"
+    if block.length ≠ shape.length then throw "block/shape mismatch"
+    let sq ← match kind with
+      | "mean" => pure true
+      | "median" => pure false
+      | _ => throw s!"bad kind {kind}"
+    match shape, block with
+    | [n], [b] =>
+      let cells := if sq then meanCells1 b data else medianCells1 b data
+      let spec := (List.range n).map (fun i => if sq then specMean1 b data i else specMedian1 b data i)
+      pure (jObj [("shape", jList jNat [cells.length]),
+                  ("model", jList (jCell sq t) cells), ("spec", jList (jSpec sq t) spec)])
+    | [n0, n1], [b0, b1] =>
+      let x := chunk n1 data n0
+      let cells := if sq then meanCells2 b0 b1 x else medianCells2 b0 b1 x
+      let spec := (List.range n0).flatMap (fun i => (List.range n1).map (fun j =>
+        if sq then specMean2 b0 b1 x i j else specMedian2 b0 b1 x i j))
+      let rowlens := cells.map (·.length)
+      let shp := match rowlens with
+        | [] => [0, 0]
+        | l :: _ => [cells.length, l]
+      if rowlens.any (· != shp.getD 1 0) then throw "ragged model output"
+      pure (jObj [("shape", jList jNat shp),
+                  ("model", jList (jCell sq t) cells.flatten), ("spec", jList (jSpec sq t) spec)])
+    | _, _ => throw "only 1-D and 2-D"
   | _ => throw s!"unknown op {op}"
 
 end PewDriver.C13
